@@ -201,15 +201,14 @@ def programs_of_form(form, form_index, scalar, exact_ok=True, diagonal=False, la
             elif rule == "vertex":
                 pts, wts, mode = None, None, "vertex"
             else:
-                if not exact_ok:
-                    raise OutOfModel("default (irrational) rule on a form not flagged as exactly integrable")
-                pts, wts, mode = None, None, "exact"
+                pts, wts, mode = None, None, "exact" if exact_ok else "default-only"
             deg = md.get("quadrature_degree", -1)
             if deg is None or (np.isscalar(deg) and deg < 0):
                 deg = md["estimated_polynomial_degree"]
             deg = int(np.max(deg))
             parts.append(Part(tree, tf.aleaves, tf.cleaves, pts, wts, tf.uses_normal, tf.max_deriv, mode))
             parts[-1].degree = deg
+            parts[-1].scheme = rule
             parts[-1].has_cond = tf.has_cond
             parts[-1].ftabs = tf.ftabs
         progs.append(Program(form_index, idata.integral_type, sid, cell, tdim, gdim, len(arguments), scalar,
@@ -232,8 +231,44 @@ def rule_for(part, prog, entity):
     if part.mode == "vertex":
         p, w = ratrules.vertex_rule(ecell)
         return p, w, ecell
+    # a basix rule whose points and weights are small rationals (low degrees) is used as it is: then the
+    # kernel must reproduce exactly *that* rule's sum, whatever the integrand's degree ("degree honoured")
+    br = basix_rational_rule(ecell, part.degree, getattr(part, "scheme", "default"))
+    if br is not None:
+        return br[0], br[1], ecell
+    if part.mode == "default-only":
+        raise OutOfModel("default (irrational) rule on a form not flagged as exactly integrable")
     p, w = ratrules.rule(ecell, part.degree)
     return p, w, ecell
+
+
+_BR_CACHE = {}
+
+
+def basix_rational_rule(ecell, degree, scheme):
+    key = (ecell, degree, scheme)
+    if key not in _BR_CACHE:
+        _BR_CACHE[key] = None
+        if ecell != "vertex" and scheme in ("default", "GLL"):
+            import basix
+            try:
+                kw = {} if scheme == "default" else {"rule": basix.QuadratureType.gll}
+                P, W = basix.make_quadrature(basix.CellType[ecell], int(degree), **kw)
+                pts, wts = [], []
+                ok = len(W) <= 9
+                for p, w in zip(np.asarray(P).reshape(len(W), -1), W):
+                    fp = [Fr(float(c)).limit_denominator(12) for c in p]
+                    fw = Fr(float(w)).limit_denominator(96)
+                    if any(abs(float(a) - float(c)) > 1e-14 for a, c in zip(fp, p)) or abs(float(fw) - float(w)) > 1e-14:
+                        ok = False
+                        break
+                    pts.append(fp)
+                    wts.append(fw)
+                if ok:
+                    _BR_CACHE[key] = (pts, wts)
+            except Exception:  # noqa: BLE001
+                pass
+    return _BR_CACHE[key]
 
 
 # ---------------------------------------------------------------------------
